@@ -102,11 +102,17 @@ pub fn expand_backslash_escapes(
             '\"' if matches!(mode, EscapeExpansionMode::AnsiCQuotes) => result.push(b'\"'),
             '?' if matches!(mode, EscapeExpansionMode::AnsiCQuotes) => result.push(b'?'),
             '0' => {
-                // Consume 0-3 valid octal chars
+                // Consume 0-3 valid octal chars; in ANSI-C quotes the leading 0 counts
+                // as one of the (at most 3) octal digits, so at most 2 more follow it.
+                let max_to_take = if matches!(mode, EscapeExpansionMode::AnsiCQuotes) {
+                    2
+                } else {
+                    3
+                };
                 let mut taken_so_far = 0;
                 let mut octal_chars: String = it
                     .take_while_ref(|c| {
-                        if taken_so_far < 3 && matches!(*c, '0'..='7') {
+                        if taken_so_far < max_to_take && matches!(*c, '0'..='7') {
                             taken_so_far += 1;
                             true
                         } else {
